@@ -354,7 +354,10 @@ class Check:
         self.obligations += len(names) + 1  # + source audit
         if not ok:
             failed = sorted(set(re.findall(r"error: ([^\n]*)", log)))
-            self.broken.append({"module": module, "errors": failed[:20], "translator": broken})
+            # the text that follows an error (bv_decide prints its counter-example there: the inputs on which the
+            # regenerated function and the model differ) is kept in the replay file
+            detail = [m.group(0)[:1500] for m in re.finditer(r"error: [^\n]*counterexample[^\n]*\n(?:(?!error:|warning:|✖|✔)[^\n]*\n){0,40}", log)]
+            self.broken.append({"module": module, "errors": failed[:20], "counterexamples": detail[:6], "translator": broken})
             # try to find out which theorems still hold: none counted
             return False
         forb = grep_forbidden()
